@@ -60,3 +60,84 @@ INT = {
         'ensures': {'zero_or_one': 'result == 0 or result == 1'},
         'no_error': True},
 }
+
+
+# ---------------------------------------------------------------------------------------------------------------------------
+# mj_filterSphere and filterCollisionPair (per-pair filter of the narrow phase): integers as bit-vectors (contype masks), mjtNum over the reals
+P = lambda g, k: 'd.geom_xpos[3 * %s + %d]' % (g, k)
+DIST2 = ' + '.join('(%s - %s)*(%s - %s)' % (P('g1', k), P('g2', k), P('g1', k), P('g2', k)) for k in range(3))
+PLANE_H = lambda gp, go: ' + '.join('(%s - %s)*d.geom_xmat[9 * %s + %d]' % (P(go, k), P(gp, k), gp, 2 + 3 * k) for k in range(3))   # height of go's centre above plane gp
+GEOM_M = {'n': 1, 'ptrfields': {'geom_rbound': {'len': 'm.ngeom'}, 'geom_type': {'len': 'm.ngeom'}}}
+GEOM_D = {'n': 1, 'ptrfields': {'geom_xpos': {'len': '3 * m.ngeom'}, 'geom_xmat': {'len': '9 * m.ngeom'}}}
+SPHERE_DEFS = {
+    'SPH': 'lambda mg: ((%s > (m.geom_rbound[g1] + m.geom_rbound[g2] + mg)*(m.geom_rbound[g1] + m.geom_rbound[g2] + mg)) if (m.geom_rbound[g1] > 0 and m.geom_rbound[g2] > 0) else '
+           '((m.geom_type[g1] == mjGEOM_PLANE and m.geom_rbound[g2] > 0 and %s > mg + m.geom_rbound[g2]) or '
+           '(m.geom_type[g2] == mjGEOM_PLANE and m.geom_rbound[g1] > 0 and %s > mg + m.geom_rbound[g1])))' % (DIST2, PLANE_H('g1', 'g2'), PLANE_H('g2', 'g1')),
+}
+FILTER_SPHERE = {
+    'params': {'m': GEOM_M, 'd': GEOM_D}, 'defs': SPHERE_DEFS,
+    'requires': {'indices': '0 <= g1 and g1 < m.ngeom and 0 <= g2 and g2 < m.ngeom and m.ngeom < 2**20'},
+    'assigns': [],
+    'ensures': {
+        # documented rule: bounding spheres farther apart than the margin; a plane against a bounding sphere uses the height above the plane
+        'discards_exactly_when_the_bounds_are_farther_apart_than_the_margin': '(result != 0) == SPH(margin)',
+        'zero_or_one': 'result == 0 or result == 1',
+    },
+    'no_error': True,
+}
+
+PAIR_M = {'n': 1, 'ptrfields': dict({k: {'len': 'm.ngeom'} for k in ('geom_rbound', 'geom_type', 'geom_bodyid', 'geom_contype', 'geom_conaffinity', 'geom_margin', 'geom_gap')},
+                                    **{k: {'len': 'm.npair'} for k in ('pair_geom1', 'pair_geom2', 'pair_margin', 'pair_gap')})}
+PAIR_D = {'n': 1, 'ptrfields': {'geom_xpos': {'len': '3 * m.ngeom'}, 'geom_xmat': {'len': '9 * m.ngeom'}, 'body_awake': {'len': 'm.nbody'}}}
+PAIR_DEFS = dict(SPHERE_DEFS, **{
+    'AM': "z3.Function('mj_assignMargin', z3.RealSort(), z3.RealSort())",
+    'LISTED': 'exists(lambda k: startadr <= k and k < pairadr and ((m.pair_geom1[k] == g1 and m.pair_geom2[k] == g2) or (m.pair_geom1[k] == g2 and m.pair_geom2[k] == g1)))',
+    'SLEEP_ON': '((m.opt.enableflags % 2**32) / mjENBL_SLEEP) % 2 == 1',        # bit test by division (math ints)
+    'band': "lambda x, y: z3.Function('band32', z3.IntSort(), z3.IntSort(), z3.IntSort())(x % 2**32, y % 2**32)",   # the verifier's bitwise-and of two 32-bit ints (axioms proved in bit-vectors: band/* lemmas)
+    'BOTH_NOT_AWAKE': 'd.body_awake[m.geom_bodyid[g1]] != mjS_AWAKE and d.body_awake[m.geom_bodyid[g2]] != mjS_AWAKE',
+    'MASKS_EXCLUDE': 'band(m.geom_contype[g1], m.geom_conaffinity[g2]) == 0 and band(m.geom_contype[g2], m.geom_conaffinity[g1]) == 0',
+    'REACH': '(AM(m.pair_margin[ipair]) + m.pair_gap[ipair]) if ipair >= 0 else (AM(m.geom_margin[g1] + m.geom_margin[g2]) + m.geom_gap[g1] + m.geom_gap[g2])',
+})
+FILTER_PAIR = {
+    'params': {'m': PAIR_M, 'd': PAIR_D},
+    'defs': PAIR_DEFS,
+    'requires': {
+        'indices': '0 <= g1 and g1 < m.ngeom and 0 <= g2 and g2 < m.ngeom and m.ngeom < 2**20 and ipair < m.npair and 0 <= m.npair and m.npair < 2**20 and 1 <= m.nbody and m.nbody < 2**20',
+        'listed_pairs_window': 'implies(merged != 0, 0 <= startadr and startadr <= pairadr and pairadr <= m.npair)',
+        'bodies_of_geoms': 'forall(lambda g: implies(0 <= g and g < m.ngeom, 0 <= m.geom_bodyid[g] and m.geom_bodyid[g] < m.nbody))',
+        'geom_types': 'forall(lambda g: implies(0 <= g and g < m.ngeom, 0 <= m.geom_type[g] and m.geom_type[g] < mjNGEOMTYPES))',
+    },
+    'assigns': [],
+    'ensures': {
+        'a_pair_listed_explicitly_is_not_generated_twice': 'implies(merged != 0 and LISTED, result == 0)',
+        'explicit_pair_between_two_bodies_that_are_not_awake_is_dropped_when_sleeping_is_on': 'implies(not (merged != 0 and LISTED) and ipair >= 0 and SLEEP_ON and BOTH_NOT_AWAKE, result == 0)',
+        'kept_pairs_pass_every_filter': 'implies(result != 0, not (merged != 0 and LISTED) and implies(ipair >= 0 and SLEEP_ON, not (BOTH_NOT_AWAKE)) and not SPH(REACH))',
+        'bounds_farther_apart_than_margin_plus_gap_are_dropped': 'implies(SPH(REACH), result == 0)',
+        'zero_or_one': 'result == 0 or result == 1',
+    },
+    'loops': {0: {'invariant': {'range': 'startadr <= k and k <= pairadr',
+                                'none_so_far': 'forall(lambda q: implies(startadr <= q and q < k, not ((m.pair_geom1[q] == g1 and m.pair_geom2[q] == g2) or (m.pair_geom1[q] == g2 and m.pair_geom2[q] == g1))))'}}},
+}
+FILTER_PAIR['ensures'].update({     # with no user contact-filter callback installed (the default) the contype / conaffinity masks decide
+    'dynamic_pair_with_excluding_masks_is_dropped_unless_a_user_filter_is_installed': 'implies(mjcb_contactfilter == NULL and ipair < 0 and MASKS_EXCLUDE, result == 0)',
+    'kept_dynamic_pairs_share_a_mask_bit_unless_a_user_filter_is_installed': 'implies(mjcb_contactfilter == NULL and result != 0 and ipair < 0, not (MASKS_EXCLUDE))',
+    'explicit_pairs_ignore_the_masks': 'implies(ipair >= 0 and not (merged != 0 and LISTED) and not (SLEEP_ON and BOTH_NOT_AWAKE) and not SPH(REACH), result == (1 if mjCOLLISIONFUNC[imin(m.geom_type[g1], m.geom_type[g2])][imax(m.geom_type[g1], m.geom_type[g2])] != NULL else 0))',
+})
+
+
+BLAS3 = {     # engine_util_blas.c, each verified as its own unit
+    'mju_sub3': {'params': {'res': V3, 'vec1': V3, 'vec2': V3}, 'requires': {}, 'assigns': ['res[*]'],
+                 'ensures': {'difference': ' and '.join('res[%d] == vec1[%d] - vec2[%d]' % (k, k, k) for k in range(3))}, 'no_error': True},
+    'mju_dot3': {'params': {'vec1': V3, 'vec2': V3}, 'requires': {}, 'assigns': [], 'pure': True,
+                 'ensures': {'dot_product': 'result == vec1[0]*vec2[0] + vec1[1]*vec2[1] + vec1[2]*vec2[2]'}, 'no_error': True},
+}
+
+
+def pair_contracts():
+    from contracts import prims
+    c = {'__defs__': dict(prims.MARGIN_DEFS), 'filterBitmask': {'inline': True}, 'filterSphere': {'inline': True}, 'planeGeomDist': {'inline': True, 'pure_inline': True},
+         'mju_sub3': BLAS3['mju_sub3'], 'mju_dot3': BLAS3['mju_dot3'],
+         'mj_filterSphere': FILTER_SPHERE, 'filterCollisionPair': FILTER_PAIR, '__callbacks__': ('mjcb_contactfilter',)}
+    for k in ('mj_assignMargin', 'getMargin', 'getGap'):
+        c[k] = prims.MARGIN_CONTRACTS[k]
+    return c
